@@ -765,12 +765,15 @@ theorem noCNss_erase (tail : WGap) (l : List (SNs × WGap)) :
       rfl
 
 theorem SVarBlock.noC_erase (b : SVarBlock) : b.noC.erase = b.erase := by
-  simp only [SVarBlock.erase, SVarBlock.noC, List.map_map]
-  congr 1
-  · apply List.map_congr_left
-    intro p _
-    simp [SVarDecl.erase, SVarDecl.noC, strip_strip]
-  · cases b.last <;> simp [SVarDecl.erase, SVarDecl.noC, strip_strip]
+  have e : (b.noC.items.map (fun p => p.1.erase) ++ (b.noC.last.map SVarDecl.erase).toList) =
+      (b.items.map (fun p => p.1.erase) ++ (b.last.map SVarDecl.erase).toList) := by
+    simp only [SVarBlock.noC, List.map_map]
+    congr 1
+    · apply List.map_congr_left
+      intro p _
+      simp [SVarDecl.erase, SVarDecl.noC, strip_strip]
+    · cases b.last <;> simp [SVarDecl.erase, SVarDecl.noC, strip_strip]
+  simp only [SVarBlock.erase, e]
 
 theorem noCVars_erase (tail : WGap) (l : List (SVar × WGap)) :
     (noCVars tail l).2.map (·.1.erase) = eraseCRules (l.map (·.1.erase)) := by
